@@ -374,7 +374,7 @@ def run_shard(spec, tier, scratch):
             else:
                 cg = None
             # (integer fields in non-canonical but valid spelling: an explicit '+', leading zeros)
-            opt = ["tp:A:P", ("NM:i:3", "NM:i:+3", "NM:i:03")[n % 3]] + ([f"cg:Z:{cg}"] if cg else []) + ["zz:Z:k_p"] + (["s1:i:007"] if n % 5 == 2 else [])
+            opt = ["tp:A:P", ("NM:i:3", "NM:i:+3", "NM:i:03")[n % 3]] + ([f"cg:Z:{cg}"] if cg else []) + ["zz:Z:k_p"] + (["s1:i:007"] if n % 5 == 2 else []) + (["ml:B:C,12,200,3", "bc:H:1AE301"] if n % 7 == 3 else [])
             # column 10 of the INPUT is whatever the first aligner claimed (here: every base matches)
             m = len(read_mid)
             bl = sum(int(x) for x, op in rgfa.cigar_runs(cg or "")) or len(read_mid)
@@ -403,7 +403,7 @@ def boundary(res, scratch):
     for n, qlen in enumerate((59_999, 60_000, 60_001, 60_002)):
         # the input CIGAR is deliberately wrong-looking (fragmented): a realigned record gets a fresh one, a passed-through keeps it
         cg = f"{qlen - 10}=5X5=" if n % 2 == 0 else f"{qlen - 10}M5X5M"  # every other one in the M flavour of minimap2 / minigraph
-        recs.append(rgfa.Rec("long", len(reads["long"]), 0, qlen, "+", ">b1>b2", len(big) + 4, 5, 5 + qlen, qlen - 5, qlen, 60, ["tp:A:P", f"cg:Z:{cg}", "zz:Z:t_1", "s1:i:+007"]))
+        recs.append(rgfa.Rec("long", len(reads["long"]), 0, qlen, "+", ">b1>b2", len(big) + 4, 5, 5 + qlen, qlen - 5, qlen, 60, ["tp:A:P", f"cg:Z:{cg}", "zz:Z:t_1", "s1:i:+007", "ml:B:C,12,200,3", "bc:H:1AE301"]))
         info.append((1, False))
     # the guard is on the READ span: 60,001 read bases over 59,991 path bases pass through, 59,995 read bases over
     # 60,005 path bases are realigned
